@@ -37,16 +37,41 @@ def indexDot : Str → Nat
   | [] => 0
   | c :: r => if c = '.' then 0 else 1 + indexDot r
 
+/-- `sn.lstrip('-')` -/
+def dropMinus (s : Str) : Str := s.dropWhile (· = '-')
+
 /-- SINGLE only: `'.' in sn and 'e' not in sn` decides whether `round` is applied;
-    the number of digits asked of `round` is `7 - sn.index('.')` (may be negative) -/
+    the number of digits asked of `round` is `7 - sn.lstrip('-').index('.')` (may be negative).
+    (As repaired: the index was taken in `sn` itself, so the minus sign counted as a digit.) -/
 def singleRoundDigits (sn : Str) : Option Int :=
+  if sn.contains '.' && !sn.contains 'e' then some (7 - (indexDot (dropMinus sn) : Int)) else none
+
+/-- the request before the repair -/
+def singleRoundDigitsOld (sn : Str) : Option Int :=
   if sn.contains '.' && !sn.contains 'e' then some (7 - (indexDot sn : Int)) else none
+
+/-- `mantissa.rstrip('0').rstrip('.')` -/
+def rstripMantissa (m : Str) : Str :=
+  match m.reverse.dropWhile (· = '0') with
+  | '.' :: r => (r.dropWhile (· = '.')).reverse
+  | a => a.reverse
+
+/-- SINGLE in exponent form (as repaired): `t` is `'%.6e' % n`; trailing zeros of the mantissa are dropped -/
+def expoSurgery (t : Str) : Str :=
+  rstripMantissa (t.takeWhile (· ≠ 'e')) ++ 'e' :: (t.dropWhile (· ≠ 'e')).drop 1
 
 /-- the surgery after the optional rounding: `r` is `str(n)`, `nonneg` is `n >= 0` -/
 def fmtFloat (isDouble : Bool) (r : Str) (nonneg : Bool) : Str :=
   let s := stripDotZero r
   let s := if s.contains 'e' then replaceE (if isDouble then 'D' else 'E') s else s
   if nonneg then ' ' :: s else s
+
+/-- format_number for a SINGLE: `sn` = str(n), `r2` = str(round(n, k)) where rounding applies, `t` = '%.6e' % n -/
+def fmtSingle (sn r2 t : Str) (nonneg : Bool) : Str :=
+  let r := if (singleRoundDigits sn).isSome then r2 else sn
+  let r := if r.contains 'e' then expoSurgery t else r
+  fmtFloat false r nonneg
+
 
 /-! ### Python `int(str)`, ASCII fragment -/
 
